@@ -204,6 +204,9 @@ func isContextType(t types.Type) bool {
 }
 
 func isContextImpl(t types.Type) bool {
+	if t == cancelCtxType {
+		return true
+	}
 	ms := types.NewMethodSet(t)
 	return ms.Lookup(nil, "Deadline") != nil && ms.Lookup(nil, "Done") != nil && ms.Lookup(nil, "Value") != nil
 }
@@ -626,8 +629,7 @@ func baseHooks() map[string]hookFn {
 		return iface{t: i.P.valueCtxPtr, v: &cell}
 	}
 	h["context.WithCancel"] = func(i *interpreter, fr *frame, fn *ssa.Function, args []value) value {
-		// cancellation is never exercised: the context is returned unchanged with a no-op cancel
-		return tuple{args[0], i.P.nopFunc}
+		return i.newCancelCtx(args[0].(iface))
 	}
 
 	// --- time ---
